@@ -5,7 +5,7 @@ export GOFLAGS=-mod=mod GOPROXY=off GOSUMDB=off GOTOOLCHAIN=local
 src=$1; k=$2; props=$3
 patch=$src/_out/patch$k.diff; demo=$src/_out/demo$k_test.go
 demo=$src/_out/demo${k}_test.go
-dir=$(head -1 $demo | sed -E 's/.*dir: *([a-zA-Z\/]+).*/\1/')
+dir=$(head -1 $demo | sed -E "s/.*dir: *([a-zA-Z\/]+).*/\1/")
 wt=/tmp/mv_$$
 git -C /repo worktree add -q $wt HEAD || exit 2
 cd $wt
